@@ -49,6 +49,9 @@ add("C25", "E-SIM", "property-based testing: generated timestamps around minimum
 add("C15", "E-SIM", "property-based testing: independently generated writer-side and reader-side QoS (one policy at a time and all at once), oracle = DDS request/offered table + partition rules (R-RXO), both sides' verdicts compared",
     "Held on N generated QoS pairs; pattern-vs-pattern partitions not judged; callback multiplicity left to C33.", SIM_NOTE)
 
+add("C16", "E-SIM", "model-based property testing: generated create/delete/set_qos/partition/crash histories vs matched-set model (R-COUNT) plus wire monitor for traffic toward departed endpoints",
+    "Held on N generated histories over up to 3 remote endpoints; ignore_* not exercised.", SIM_NOTE)
+
 # checks built by helper engines: metadata comes from tools/fragments/<ID>.json
 FRAGMENT_ENGINE = {"C08": "E-CODEC", "C14": "E-CODEC", "C38": "E-CODEC", "C34": "E-CHAN", "C42": "E-RT", "C40": "E-GEN", "C41": "E-GEN",
                    "C09": "E-CODEC", "C10": "E-CODEC", "C11": "E-CODEC", "C12": "E-CODEC", "C39": "E-CODEC", "C07": "E-CODEC", "C13": "E-CODEC",
